@@ -757,7 +757,90 @@ def gen_plotting():
         raise KeyError((cls, meth))
     P.Tr(m, nested("SquareRootTransform", "transform_non_affine"), emit_name="sqrt_transform", self_fields=[], kinds={"a": "list"}).translate()
     P.Tr(m, nested("InvertedSquareRootTransform", "transform_non_affine"), emit_name="sqrt_inverse_transform", self_fields=[], kinds={"a": "list"}).translate()
+    gen_plot_helpers(m)
     return m
+
+
+def gen_plot_helpers(m):
+    """The three reservoir helpers of plotting.py: the statements on the DATA path (what becomes a Line2D's x / y data) are matched
+    one for one and emitted as the Gallina terms they denote; statements that only style the axes (`ax.set(...)`, tick placement
+    under `if change_ticks:`) may change freely as long as they do not assign a name the data path reads.  Anything else on the
+    data path fails closed."""
+    import ast
+
+    def stmts(fn):
+        return [n for n in fn.body if not (isinstance(n, ast.Expr) and isinstance(n.value, ast.Constant))]
+
+    def is_style(n, data_names):
+        """`ax.set(...)`, `ax.set_xticks(..)`, `if change_ticks: <style>` - no assignment to a data name, no call of ax.plot"""
+        src = ast.unparse(n)
+        for sub in ast.walk(n):
+            if isinstance(sub, ast.Call) and isinstance(sub.func, ast.Attribute) and sub.func.attr in ("plot", "scatter", "semilogx", "semilogy", "loglog", "step", "fill_between", "errorbar", "add_line"):
+                return False
+            if isinstance(sub, (ast.Assign, ast.AugAssign, ast.AnnAssign)):
+                tg = sub.targets if isinstance(sub, ast.Assign) else [sub.target]
+                for t_ in tg:
+                    for nm in ast.walk(t_):
+                        if isinstance(nm, ast.Name) and nm.id in data_names:
+                            return False
+                        if isinstance(nm, ast.Attribute):      # a store into reservoir.<field> is never styling
+                            return False
+        if isinstance(n, ast.If):
+            return ast.unparse(n.test) == "change_ticks" and not n.orelse
+        return isinstance(n, ast.Expr) and src.startswith(("ax.set(", "ax.set_xticks(", "ax.set_yticks("))
+
+    def match(name, params, defaults, want, data_names):
+        fn = m.funcs[name]
+        got_p = [a.arg for a in fn.args.args]
+        got_d = [ast.unparse(d) for d in fn.args.defaults]
+        if got_p != params or got_d != defaults or fn.args.vararg or fn.args.kwarg or fn.args.kwonlyargs:
+            raise P.Untranslatable(f"{name}: parameters {got_p} with defaults {got_d}, expected {params} / {defaults}")
+        body = stmts(fn)
+        if not body or ast.unparse(body[-1]) != "return ax":
+            raise P.Untranslatable(f"{name}: does not end with `return ax`")
+        data = [n for n in body[:-1] if not is_style(n, data_names)]
+        got = [ast.unparse(n) for n in data]
+        if got != want:
+            k = next((i for i, (a, b) in enumerate(zip(got, want)) if a != b), min(len(got), len(want)))
+            raise P.Untranslatable(f"{name}: data-path statement {k + 1} is `{got[k] if k < len(got) else '<missing>'}`, expected `{want[k] if k < len(want) else '<nothing more>'}`")
+        # a style statement placed before the last plot call could still restyle nothing that matters; but one that rebinds `ax` is refused above
+        return body
+
+    axdef = "if ax is None:\n    _, ax = plt.subplots()"
+    kwdef = "if plot_kwargs is None:\n    plot_kwargs = {}"
+    match("plot_pseudopressure", ["reservoir", "every", "rescale", "ax", "x_max", "y_max", "plot_kwargs"], ["200", "False", "None", "1", "None", "None"],
+          [axdef, "x = np.linspace(1 / reservoir.nx, 1, reservoir.nx)", "pinit = reservoir.pseudopressure[0, -1]", kwdef,
+           "for i, p in enumerate(reservoir.pseudopressure):\n    if i % every == 0:\n        if rescale:\n            pscale = (p - p[0]) / (pinit - p[0])\n"
+           "            ax.plot(x, pscale, color='steelblue', **plot_kwargs)\n        else:\n            ax.plot(x, p, color='steelblue', **plot_kwargs)"],
+          {"x", "pinit", "p", "pscale", "i", "ax", "plot_kwargs", "reservoir", "every", "rescale"})
+    match("plot_recovery_rate", ["reservoir", "ax", "change_ticks", "plot_kwargs"], ["None", "False", "None"],
+          [axdef, kwdef, "cumulative = reservoir.recovery_factor()", "rate = np.gradient(cumulative, np.asarray(reservoir.time, dtype=np.float64))",
+           "ax.plot(reservoir.time, rate, label='Recovery rate', **plot_kwargs)"],
+          {"cumulative", "rate", "ax", "plot_kwargs", "reservoir"})
+    match("plot_recovery_factor", ["reservoir", "ax", "change_ticks", "plot_kwargs"], ["None", "False", "None"],
+          [axdef, kwdef, "rf = reservoir.recovery_factor()", "time = reservoir.time", "ax.plot(time, rf, label='Recovery factor', **plot_kwargs)"],
+          {"rf", "time", "ax", "plot_kwargs", "reservoir"})
+    m.out.append("""(* ---- the reservoir helpers: what each `ax.plot(xdata, ydata, ..)` receives, statement for statement ---- *)
+(* plot_pseudopressure: x = np.linspace(1 / reservoir.nx, 1, reservoir.nx)   [start + j * (stop - start)/(n - 1), j = 0 .. n-1] *)
+Definition pp_x (nx : nat) : list R :=
+  map (fun j => 1 / INR nx + INR j * ((1 - 1 / INR nx) / (INR nx - 1))) (seq 0 nx).
+(* pinit = reservoir.pseudopressure[0, -1] *)
+Definition pp_pinit (field : list (list R)) : R := last (hd [] field) 0.
+(* for i, p in enumerate(reservoir.pseudopressure): if i % every == 0: *)
+Definition pp_selected (every : nat) (field : list (list R)) : list (list R) :=
+  map snd (filter (fun ip => Nat.eqb (fst ip mod every) 0) (combine (seq 0 (length field)) field)).
+(* pscale = (p - p[0]) / (pinit - p[0]) *)
+Definition pp_pscale (pinit : R) (p : list R) : list R := map (fun v => (v - hd 0 p) / (pinit - hd 0 p)) p.
+(* if rescale: ax.plot(x, pscale, ..) else: ax.plot(x, p, ..)      - one line per selected profile, in order *)
+Definition pp_lines (nx every : nat) (rescale : bool) (field : list (list R)) : list (list R * list R) :=
+  map (fun p => (pp_x nx, if rescale then pp_pscale (pp_pinit field) p else p)) (pp_selected every field).
+(* plot_recovery_factor: rf = reservoir.recovery_factor(); time = reservoir.time; ax.plot(time, rf, ..) *)
+Definition rf_line (time rf : list R) : list R * list R := (time, rf).
+(* plot_recovery_rate: rate = np.gradient(cumulative, float64(reservoir.time)); ax.plot(reservoir.time, rate, ..)
+   `np_gradient` is the library function (second-order interior, one-sided ends), a parameter here *)
+Definition rate_line (np_gradient : list R -> list R -> list R) (time cumulative : list R) : list R * list R :=
+  (time, np_gradient cumulative time).
+""")
 
 
 GENERATORS = {"fitpressure": gen_fitpressure, "plotting": gen_plotting, "forecast": gen_forecast, "flowprops": gen_flowprops, "fluid": gen_fluid, "water": gen_water, "gas": gen_gas, "oil": gen_oil, "reservoir": gen_reservoir}
